@@ -175,6 +175,18 @@ void rt_note (const char *fmt, ...) {
 	va_list ap; va_start (ap, fmt); vsnprintf (b + n, 160 - (size_t) n, fmt, ap); va_end (ap);
 }
 
+/* ---- distinct values / transitions of watched words (state coverage for the evidence) ---- */
+#define WSET 8192
+static uint64_t wvals[WSET], wtrans[WSET]; static long wvals_n, wtrans_n;
+static void wset_add (uint64_t *set, long *cnt, uint64_t key) {
+	uint64_t k = key * 0x9E3779B97F4A7C15ull | 1; size_t i = (size_t) (k >> 20) % WSET;
+	for (int n = 0; n < 64; n++, i = (i + 1) % WSET) {
+		uint64_t cur = __atomic_load_n (&set[i], __ATOMIC_RELAXED);
+		if (cur == k) return;
+		if (cur == 0) { uint64_t z = 0; if (__atomic_compare_exchange_n (&set[i], &z, k, 0, __ATOMIC_RELAXED, __ATOMIC_RELAXED)) { __atomic_fetch_add (cnt, 1, __ATOMIC_RELAXED); return; } if (z == k) return; }
+	}
+}
+
 /* ---- watched words ---- */
 static struct { const volatile void *addr; rt_word_cb cb; } watched[8];
 void rt_watch_word (int idx, const volatile void *addr, rt_word_cb cb) { watched[idx & 7].cb = cb; __atomic_store_n (&watched[idx & 7].addr, addr, __ATOMIC_RELEASE); }
@@ -534,7 +546,10 @@ void nsync_verif_step_ (const char *file, int line, const char *func, int op, co
 void nsync_verif_done_ (int op, const volatile void *addr, uint32_t old_v, uint32_t new_v, int ok) {
 	if (me < 0) return;
 	if (ring_on) { struct rev *e = &ring[T[me].last_ring]; if (e->tid == me) { e->old_v = old_v; e->new_v = new_v; e->ok = ok; } }
-	for (int i = 0; i < 8; i++) if (watched[i].addr == addr && addr != NULL) watched[i].cb (i, op, old_v, new_v, ok);
+	for (int i = 0; i < 8; i++) if (watched[i].addr == addr && addr != NULL) {
+		if (ok) { wset_add (wvals, &wvals_n, new_v); if (op <= 4) wset_add (wtrans, &wtrans_n, ((uint64_t) old_v << 32) | new_v); }
+		watched[i].cb (i, op, old_v, new_v, ok);
+	}
 }
 
 void rt_point (const char *tag) {
@@ -819,6 +834,7 @@ static void write_summary (uint64_t rounds_done, double wall, char **samples, in
 		 rt_scen.name, rt_scen.property, mode_b ? "B" : "A", config_name, (unsigned long long) base_seed, (unsigned long long) start_round,
 		 (unsigned long long) rounds_done, (unsigned long long) total_steps, (unsigned long long) total_switches);
 	fprintf (f, ",\"distinct\":%zu,\"distinct_nontrivial\":%zu,\"faults_fired\":%llu,\"wall_s\":%.3f", hcnt, hcnt_nt, (unsigned long long) faults_fired, wall);
+	fprintf (f, ",\"word_values_seen\":%ld,\"word_transitions_seen\":%ld", wvals_n, wtrans_n);
 	fprintf (f, ",\"counters\":{");
 	{ int first = 1; for (int i = 0; i < 64; i++) if (cover_names[i]) { fprintf (f, "%s\"%s\":%ld", first ? "" : ",", cover_names[i], cover[i]); first = 0; } }
 	fprintf (f, "},\"sites\":{");
